@@ -33,6 +33,8 @@ def _case(draw):
             'refuse': draw(st.one_of(st.just([]), st.just([]), st.lists(st.sampled_from([False, False, True]), min_size=1, max_size=6))),
             # transactions whose request cannot be encoded: that call raises (caller error); everybody else must be unaffected
             'badreq': draw(st.one_of(st.just([]), st.just([]), st.lists(st.sampled_from([False, False, True]), min_size=12, max_size=12))),
+            # retry budget of the client (with 0 a single dropped request already makes that caller's transaction fail)
+            'retries': draw(st.sampled_from([3, 3, 0, 1])),
             'schedule': draw(st.lists(st.integers(0, 3), min_size=8, max_size=120))}
 
 
@@ -49,14 +51,22 @@ def sweeps(tier):
     # a second caller that is BORN while the first transaction is between its send and its receive (no scheduler: the first caller is
     # the check's own main thread, the second a real thread started from inside the transport)
     out.append(('thread-born-during-a-transaction', [{'born': True, 'client': c, 'n': n} for c in ('tcp', 'udp', 'rtu') for n in (1, 2)], False))
+    # the same enumeration with a first transmission that the peer drops (one caller's transaction fails, retries 0 or 1)
+    for c in ('tcp', 'rtu'):
+        for retries in (0, 1):
+            out.append(('schedules-in-depth-first-order-%s-1x1-first-request-dropped-retries-%d' % (c, retries),
+                        _enumerate(c, [1, 1], 150 if tier == 'quick' else 20000, faults=[False, True] + [False] * 10, retries=retries), False))
     return out
 
 
-def _enumerate(client, ntx, cap):
+def _enumerate(client, ntx, cap, faults=None, retries=3):
     prefix = []
     count = 0
     while count < cap:
         case = {'client': client, 'ntx': ntx, 'split': [False, True] * 6, 'schedule': list(prefix)}
+        if faults:
+            case['faults'] = list(faults)
+            case['retries'] = retries
         out, s = _run(case)
         count += 1
         yield case
@@ -109,7 +119,7 @@ def _run(case):
     peer = ReplyPeer(framing, case['split'], case.get('faults') or [], stream=case['client'] != 'udp')
     bc = case.get('bcast') or []
     badreq = case.get('badreq') or []
-    kw = {'retries': 3, 'retry_on_empty': True, 'backoff': 0.01, 'broadcast_enable': bool(any(bc))}
+    kw = {'retries': case.get('retries', 3), 'retry_on_empty': True, 'backoff': 0.01, 'broadcast_enable': bool(any(bc))}
     s = sched.Sched(case['schedule'])
     results = {}
     marks = []
@@ -171,8 +181,8 @@ def _run(case):
                 break
             if op == 'send':
                 owner = th
-        elif op == 'tx-end' and th == owner:
-            owner = None
+        elif op in ('tx-end', 'unlock') and th == owner:
+            owner = None            # a transaction is over when its lock is given up (the call returns a little later)
     # (b) frames whole
     for data, err in peer.bad:
         discs.append(Disc('frame-not-whole', 'written bytes %s are not one frame: %s' % (data.hex()[:60], err)))
@@ -204,7 +214,7 @@ def _run(case):
 def _all_attempts_faulted(case):
     # with generated faults a transaction may legitimately exhaust its retries: judged only when faults are sparse
     f = case.get('faults') or []
-    return sum(1 for x in f if x) > 3
+    return sum(1 for x in f if x) > case.get('retries', 3)
 
 
 def _run_born(case):
